@@ -60,7 +60,11 @@ def run(ctx, build, verdict, ev):
         lits = []
         for x in xs:
             with np.errstate(all="ignore"):
-                raw = real.hedge(x)
+                try:
+                    raw = real.hedge(x)
+                except Exception as ex:  # noqa  (a hedge never raises on a float)
+                    verdict.add_violation(f"{name}:exception", f"{name}.hedge({x!r}) raises {type(ex).__name__}: {ex}", {"hedge": name, "x": x})
+                    continue
                 if np.shape(raw) != ():
                     verdict.add_violation(f"{name}:scalar-shape", f"{name}.hedge({x!r}) returns shape {np.shape(raw)} for a scalar argument", {"hedge": name, "x": x})
                     raw = np.asarray(raw).ravel()[0] if np.size(raw) else math.nan
@@ -96,7 +100,10 @@ def run(ctx, build, verdict, ev):
         with np.errstate(all="ignore"):
             pa = np.asarray(real.hedge(probe), dtype=float)
             for x, a in zip(probe, pa):
-                r = float(real.hedge(float(x)))
+                try:
+                    r = float(real.hedge(float(x)))
+                except Exception:  # noqa (reported by the scalar stream above)
+                    break
                 if not vlib.same_float(r, float(a)):
                     verdict.add_violation(f"{name}:array-vs-scalar", f"{name}.hedge: array evaluation {float(a)!r} differs from scalar evaluation {r!r} at x={float(x)!r}", {"hedge": name, "x": float(x), "scalar": r, "array": float(a)})
                     break
